@@ -250,9 +250,9 @@ def kani_replay(o, failed_checks, res_text, prop):
                 src = re.sub(r"\b%s\b\s*\)" % re.escape(short), "crate::%s)" % o.harness, test_src)
                 pb = os.path.join(WORK, "playback.rs")
                 open(pb, "w").write("#![allow(unused)]\n" + src + "\n")
-                cmd2 = ["cargo", "kani", "playback", "-Z", "concrete-playback", "--target-dir",
-                        os.path.join(WORK, "kani-playback"), "--lib", "--", tn.group(1)]
-                p2 = subprocess.run(cmd2, cwd=REPO, env=env, capture_output=True, text=True, timeout=900)
+                cmd2 = ["cargo", "kani", "playback", "-Z", "concrete-playback", "--lib", "--", tn.group(1)]
+                env2 = dict(env, CARGO_TARGET_DIR=os.path.join(WORK, "kani-playback"))
+                p2 = subprocess.run(cmd2, cwd=REPO, env=env2, capture_output=True, text=True, timeout=900)
                 out2 = p2.stdout + p2.stderr
                 rec["native_output"] = out2[-4000:]
                 if "test result: FAILED" in out2 or "panicked at" in out2:
